@@ -35,7 +35,7 @@ EXPLANATION = (
     "the hash array sorted by the same permutation as the row ids; the "
     "hash covers the whole spectrum key and is process-independent. (d) "
     "scores are concatenated fold-major and un-permuted with argsort of "
-    "the fold-major original indices. NOT decided: fold sizes, estimator "
+    "the fold-major original indices. Also: in _predict no container that one collection both fills and reads is created outside the per-collection loop. NOT decided: fold sizes, estimator "
     "behaviour.")
 TECHNIQUE = ("def-use provenance over all writes + all-paths (phi leaves) "
              "term matching + CFG must-pass-through + index-correspondence "
@@ -735,6 +735,14 @@ def _predict(ctx, f):
     ctx.check(ok_m, "C02d-fold-major-scores", f,
               "per-fold score blocks are appended in model order, each from "
               "the front of the per-fold list", why, node=ys[0])
+    # ---- nothing one collection recorded is still there for the next
+    from .common import loop_carried_state
+    cl = cfg.enclosing(ys[0], (ast.For, ast.While))
+    ctx.require(cl is not None,
+                f"{f.qual}: the per-collection loop around the yield was "
+                "not found")
+    loop_carried_state(ctx, f, du, T, cfg, cl, "C02d-per-collection-state",
+                       "collection", 3)
 
 
 def _var_inits(du, T, var):
